@@ -71,13 +71,14 @@ class Obligation:
         path: str = "",
         mod: ModuleInfo | None = None,
         at: str | None = None,
+        construct: str | None = None,
     ) -> None:
         m = fi.module if fi is not None else mod
         f = Finding(
             prop=self.prop,
             rule=self.id,
             at=at or (fi.qualname if fi is not None else (m.name if m else "<package>")),
-            construct=stmt_text(node) if node is not None else "<function>",
+            construct=construct or (stmt_text(node) if node is not None else "<function>"),
             file=m.relpath if m else "?",
             line=(getattr(node, "lineno", 0) or getattr(getattr(node, "pattern", None), "lineno", 0)) if node is not None else (fi.node.lineno if fi else 0),
             message=message,
